@@ -13,10 +13,10 @@ EXPLANATION = (
     "self + other and self + f*other on every field. This check executes those impls symbolically on their MIR "
     "(values are polynomials over the atoms self.<field>, other.<field>, f; delegation to a sibling impl is followed) and compares the result "
     "with that identity; an impl outside the small supported language is reported as undecided (fail closed). The "
-    "two marlin_pc::Randomness `+=` impls handle an Option field case by case and are outside that language: they are "
-    "listed as not decided, only their `+` wrappers (pure delegation) are checked. Determinism of non-hiding "
+    "two marlin_pc::Randomness `+=` impls handle an Option-valued field: they are executed once for each of the four "
+    "presence cases (None counts as the neutral element). Determinism of non-hiding "
     "commitments is decided under C07 (R6b), build / schedule independence under C18.")
-RULE = "instances = 11 operator impls x {result = self + [f*]other on every written field, or pure delegation}"
+RULE = "instances = 13 operator impls x {result = self + [f*]other on every written field (per presence case), or pure delegation}"
 
 KC = "kzg10::data_structures::Commitment"
 KR = "kzg10::data_structures::Randomness"
@@ -78,10 +78,49 @@ def run(rep, ctx, tier):
                 "; ".join("%s = %s" % (k, L.p_fmt(v)) for k, v in sorted(res.items())) if ok else
                 "computes %s, the identity requires %s" % ({k: L.p_fmt(v) for k, v in res.items()}, {k: L.p_fmt(v) for k, v in want.items()}),
                 b.span)
-    for key in NOT_DECIDED:
-        if key not in found:
-            rep.add("R12b", "inventory:%s" % (key,), False, "expected operator impl %s not found" % (key,), None)
+    # the two impls with an Option-valued field: executed once per presence case
+    for (adt, tr, kind) in NOT_DECIDED:
+        name = "%s:%s<%s>" % (adt.replace("::data_structures", ""), tr.rsplit("::", 1)[-1], kind)
+        b = found.get((adt, tr, kind))
+        if b is None:
+            rep.add("R12b", name, False, "operator impl not found (fail closed)", None)
+            continue
+        scaled = kind == "pair"
+        bad = None
+        for cs in (True, False):
+            for co in (True, False):
+                case = "self.shifted_rand %s, other.shifted_rand %s" % ("Some" if cs else "None", "Some" if co else "None")
+                try:
+                    ex = L.Exec(f, b, kind, False, opt_case={"self.shifted_rand": cs, "other.shifted_rand": co})
+                    ex.run()
+                except L.Undecided as e:
+                    bad = "outside the supported language in the case %s (%s): undecided, reported fail closed" % (case, e)
+                    break
+                o = L.p_atom("other.rand")
+                want_rand = L.p_add(L.p_atom("self.rand"), L.p_mul(L.p_atom("f"), o) if scaled else o)
+                got_rand = ex.fields.get("rand")
+                so = L.p_atom("other.shifted_rand")
+                so = L.p_mul(L.p_atom("f"), so) if scaled else so
+                want_shift = None
+                if cs and co:
+                    want_shift = L.p_add(L.p_atom("self.shifted_rand"), so)
+                elif cs:
+                    want_shift = L.p_atom("self.shifted_rand")
+                elif co:
+                    want_shift = so
+                gs = ex.fields.get("shifted_rand")
+                got_shift = gs[2] if isinstance(gs, tuple) and gs[0] == "opt" and gs[1] else None
+                if got_rand != want_rand or got_shift != want_shift:
+                    bad = "in the case %s it computes rand = %s, shifted_rand = %s; the identity requires %s and %s" % (
+                        case, L.p_fmt(got_rand) if isinstance(got_rand, dict) else got_rand,
+                        L.p_fmt(got_shift) if got_shift is not None else "None", L.p_fmt(want_rand),
+                        L.p_fmt(want_shift) if want_shift is not None else "None")
+                    break
+            if bad:
+                break
+        rep.add("R12b", name, bad is None, "self + %sother on `rand` and, case by case, on the optional `shifted_rand`" % ("f*" if scaled else "")
+                if bad is None else bad, b.span)
     extra = sorted(k for k in found if k not in {(a, t, kd) for a, t, kd, _ in TABLE} and k not in NOT_DECIDED)
     rep.add("R12b", "inventory", not extra, "every additive operator impl on these types is in the table (2 listed as not decided)"
             if not extra else "operator impl(s) not covered by the table: %s" % extra, None)
-    rep.note("not decided: %s (Option-valued field handled case by case)" % NOT_DECIDED)
+    rep.note("the two marlin_pc::Randomness `+=` impls are decided case by case over the presence of shifted_rand")
